@@ -303,9 +303,31 @@ func lenOf(v ssa.Value) (ssa.Value, bool) {
 	}
 	n := calleeName(&c.Call)
 	if (n == "builtin len" || n == "builtin cap") && len(c.Call.Args) == 1 {
+		if cv, ok := c.Call.Args[0].(*ssa.Convert); ok && n == "builtin len" && isBytesOrString(cv.Type()) && isBytesOrString(cv.X.Type()) {
+			return cv.X, true // len([]byte(s)) == len(s): `for i := range []byte(s)` bounds indexes of s
+		}
 		return c.Call.Args[0], true
 	}
 	return nil, false
+}
+
+// lenOperand: the value whose length equals len(X): []byte(s) and string(b) have the length of their operand.
+func lenOperand(X ssa.Value) ssa.Value {
+	if cv, ok := X.(*ssa.Convert); ok && isBytesOrString(cv.Type()) && isBytesOrString(cv.X.Type()) {
+		return cv.X
+	}
+	return X
+}
+
+func isBytesOrString(t types.Type) bool {
+	switch u := t.Underlying().(type) {
+	case *types.Basic:
+		return u.Info()&types.IsString != 0
+	case *types.Slice:
+		b, ok := u.Elem().Underlying().(*types.Basic)
+		return ok && b.Kind() == types.Uint8
+	}
+	return false
 }
 
 type bctx struct {
@@ -733,6 +755,7 @@ func isIntegerType(t types.Type) bool {
 
 // lenGT: len(X) > k at use.
 func (b *bctx) lenGT(X ssa.Value, k int64, use ssa.Instruction) bool {
+	X = lenOperand(X)
 	if k < 0 {
 		return true
 	}
@@ -776,6 +799,7 @@ func (b *bctx) lenGT(X ssa.Value, k int64, use ssa.Instruction) bool {
 
 // lt: v < len(X) at use.
 func (b *bctx) lt(v, X ssa.Value, use ssa.Instruction) bool {
+	X = lenOperand(X)
 	if k, ok := constInt(v); ok {
 		return b.lenGT(X, k, use)
 	}
@@ -982,6 +1006,7 @@ func suffixFact(A, B ssa.Value) EdgePred {
 
 // lenValues lists the SSA values len(Y) of the function with Y the same as X.
 func lenValues(fn *ssa.Function, X ssa.Value) []ssa.Value {
+	X = lenOperand(X)
 	var out []ssa.Value
 	for _, in := range instrs(fn) {
 		if c, ok := in.(*ssa.Call); ok {
@@ -995,6 +1020,7 @@ func lenValues(fn *ssa.Function, X ssa.Value) []ssa.Value {
 
 // le: v <= len(X) at use.
 func (b *bctx) le(v, X ssa.Value, use ssa.Instruction, seen visit) bool {
+	X = lenOperand(X)
 	if v == nil {
 		return true
 	}
@@ -1113,6 +1139,7 @@ func (b *bctx) le(v, X ssa.Value, use ssa.Instruction, seen visit) bool {
 
 // leq: a <= b2 at use, for plain values (used for low <= high of slice expressions).
 func (b *bctx) leq(a, b2 ssa.Value, X ssa.Value, use ssa.Instruction) bool {
+	X = lenOperand(X)
 	if a == nil {
 		return true
 	}
